@@ -44,6 +44,12 @@ impl FileH {
 // fs::rename(from, to): atomic in the volatile directory; durable only after the directory is synced
 #[verifier::external_body]
 pub fn fs_rename(fs: &mut Fs, from: &String, to: &String) -> (r: IoResult<()>)
+    requires
+        // "each unsynced write may or may not be kept": a rename can reach the disk before the data of the file it moves, so the
+        // contents of the source must already be durable (fsync before rename) - otherwise a power loss may leave the target name
+        // on a file without its contents
+        old(fs).vol_dir@.contains_key(from@) ==> (old(fs).dur_data@.contains_key(old(fs).vol_dir@[from@]) && old(fs).vol_data@.contains_key(old(fs).vol_dir@[from@])
+            && old(fs).dur_data@[old(fs).vol_dir@[from@]] == old(fs).vol_data@[old(fs).vol_dir@[from@]]),
     ensures
         final(fs).dur_dir == old(fs).dur_dir, final(fs).vol_data == old(fs).vol_data, final(fs).dur_data == old(fs).dur_data,
         r is Ok ==> old(fs).vol_dir@.contains_key(from@) && final(fs).vol_dir@ == old(fs).vol_dir@.remove(from@).insert(to@, old(fs).vol_dir@[from@]),
@@ -121,3 +127,15 @@ impl WalPathManager {
         ensures forall|n: Seq<char>| #[trigger] fs.vol_dir@.contains_key(join_spec(self.root.p@, n)) && name_value(n) is Some ==> name_value(n)->Some_0 <= r
     { unimplemented!() }
 }
+
+// sync_parent_dir(p) called from paths.rs (open(parent of p) + sync_all): the entries of the instance directory become durable
+// only if the directory synced is the instance directory, i.e. if `p` names something inside it (left uninterpreted: nothing
+// in the model says that the instance root lies inside itself)
+pub uninterp spec fn in_instance_dir(p: Seq<char>) -> bool;
+#[verifier::external_body]
+pub fn fs_sync_parent_of(fs: &mut Fs, p: &PathBuf) -> (r: IoResult<()>)
+    ensures
+        final(fs).vol_dir == old(fs).vol_dir, final(fs).vol_data == old(fs).vol_data, final(fs).dur_data == old(fs).dur_data,
+        (r is Ok && in_instance_dir(p.p@)) ==> final(fs).dur_dir == old(fs).vol_dir,
+        !(r is Ok && in_instance_dir(p.p@)) ==> final(fs).dur_dir == old(fs).dur_dir,
+{ unimplemented!() }
